@@ -16,6 +16,10 @@ from . import flow
 from .facts import strip, walk, kids
 
 
+# helpers that rules name explicitly (their call text is part of a template)
+NO_INLINE = set()
+
+
 class Canon:
     def __init__(self, fn, uniform=False, noinline=False):
         """uniform=True (reference summaries): the induction variable of a `for` statement is an ordinary reassigned
@@ -162,15 +166,23 @@ class Canon:
             cal = strip(s["c"][0])
             obj = (cal.get("c") or [None])[0] if cal and cal.get("k") == "MemberExpr" else None
             o = self.c(obj) if obj is not None else ""
-            if self.uniform and o in ("this", "") and len(s["c"]) == 1 and self._depth < 3:
-                # a parameterless const getter of the same object whose body is one return: its value
+            if o in ("this", "") and self._depth < 3 and (self.uniform or len(s["c"]) > 1):
+                # a const member function of the same object whose whole body is one return statement is a name for
+                # that expression (a getter, or an expression a maintainer pulled out into a helper): its value, with
+                # the parameters replaced by the arguments
                 g = self.fn.facts.by_id.get((s.get("callee") or {}).get("id"))
-                if g is not None and g.body is not None and (s.get("callee") or {}).get("const") and g is not self.fn:
+                if g is not None and g.body is not None and (s.get("callee") or {}).get("const") and g is not self.fn \
+                        and (s.get("callee") or {}).get("n") not in NO_INLINE:
                     st = [x for x in (g.body.get("c") or []) if x.get("k") != "NullStmt"]
-                    if len(st) == 1 and st[0].get("k") == "ReturnStmt" and st[0].get("value") is not None:
-                        sub = Canon(g, uniform=True)
+                    if len(st) == 1 and st[0].get("k") == "ReturnStmt" and st[0].get("value") is not None and \
+                            not any(x.get("k") in ("CallExpr", "CXXMemberCallExpr") for x in walk(st[0]["value"])):
+                        sub = Canon(g, uniform=self.uniform)
                         sub._depth = self._depth + 1
-                        return sub.c(st[0]["value"])
+                        txt = sub.c(st[0]["value"])
+                        args = [self.c(a) for a in s["c"][1:]]
+                        import re as _re
+                        return _re.sub(r"\$(\d+)", lambda m: args[int(m.group(1))] if int(m.group(1)) < len(args)
+                                       else m.group(0), txt)
             name = (s.get("callee") or {}).get("n", "?")
             args = ", ".join(self.c(a) for a in s["c"][1:])
             return "%s%s(%s)" % (o + "." if o not in ("this", "") else "", name, args)
